@@ -192,6 +192,12 @@ class _Truth(ast.NodeTransformer):
                 and isinstance(f.value.func, ast.Attribute) and isinstance(f.value.func.value, ast.Name) and f.value.func.value.id == 're' \
                 and f.value.func.attr == 'compile' and len(f.value.args) == 1 and not f.value.keywords and not node.keywords:
             return ast.Call(func=ast.Attribute(value=ast.Name(id='re', ctx=ast.Load()), attr=f.attr, ctx=ast.Load()), args=[f.value.args[0]] + list(node.args), keywords=[])
+        # min(a, b) is `b if b < a else a`, max(a, b) is `b if b > a else a` (the builtin keeps the first of equal / unordered arguments; exact for NaN too)
+        if isinstance(f, ast.Name) and f.id in ('min', 'max') and len(node.args) == 2 and not node.keywords and not any(isinstance(a, ast.Starred) for a in node.args) \
+                and all(C._pure(a) for a in node.args):
+            a, b = node.args
+            import copy
+            return ast.IfExp(test=ast.Compare(left=copy.deepcopy(b), ops=[ast.Lt() if f.id == 'min' else ast.Gt()], comparators=[copy.deepcopy(a)]), body=b, orelse=a)
         if isinstance(f, ast.Name) and f.id == 'getattr' and len(node.args) == 2 and not node.keywords and isinstance(node.args[1], ast.Constant) \
                 and isinstance(node.args[1].value, str) and node.args[1].value.isidentifier():
             return ast.Attribute(value=node.args[0], attr=node.args[1].value, ctx=ast.Load())
@@ -544,8 +550,25 @@ def cond_rebind(fn):
     """`if c: x = E` (no else) with x bound before in the same block (or a parameter)  ->  `x = E if c else x`.
     E is evaluated exactly when c holds in both forms; x is bound, so reading it in the else arm cannot fail."""
     params = {a.arg for a in fn.args.args + fn.args.kwonlyargs} | ({fn.args.vararg.arg} if fn.args.vararg else set())
+    # names bound unconditionally at the top level of the function, with the position of that statement
+    top = {}
+    for k, st in enumerate(fn.body):
+        if isinstance(st, ast.Assign):
+            for t in st.targets:
+                for x in ([t] if not isinstance(t, (ast.Tuple, ast.List)) else t.elts):
+                    if isinstance(x, ast.Name):
+                        top.setdefault(x.id, k)
+
+    def top_index(node):
+        for k, st in enumerate(fn.body):
+            if any(n is node for n in ast.walk(st)):
+                return k
+        return -1
     for _o, _f, body in list(C._blocks(fn)):
-        bound = set(params) if body is fn.body else set()
+        bound = set(params)
+        if body is not fn.body and body:
+            ti = top_index(body[0])
+            bound |= {n for n, k in top.items() if k < ti}      # bound before the top-level statement this block sits in
         for k, st in enumerate(body):
             if isinstance(st, ast.If) and not st.orelse and len(st.body) == 1 and isinstance(st.body[0], ast.Assign) and len(st.body[0].targets) == 1 \
                     and isinstance(st.body[0].targets[0], ast.Name) and st.body[0].targets[0].id in bound:
